@@ -29,7 +29,7 @@ def showSl (s : Nat × Nat) : String := s!"{s.1}:{s.2}"
 def pairs (n0 n1 : Nat) : List (Nat × Nat) := (List.range n0).flatMap fun i => (List.range n1).map fun j => (i, j)
 
 /-- root with pixel array: rid cs series scalar T time date (C components) -/
-def pRootA (C : Nat) : P (Except Err ImgA) := do
+def pRootA (C : List Nat) : P (Except Err ImgA) := do
   let rid ← P.nat
   let cs ← pCS
   let series ← P.bool; let scalar ← P.bool; let T ← P.nat
@@ -44,11 +44,11 @@ def boxC : List Nat → List (List Nat)
 def flatC (shape idx : List Nat) : Nat := (List.zip shape idx).foldl (fun acc p => acc * p.1 + p.2) 0
 
 /-- patch image: shape, dimensions, origin, then the whole pixel array (tags encoded like the harness payload) -/
-def showPatch (rootShape : List Nat) (a : ImgA) : String :=
+def showPatch (C rootShape : List Nat) (a : ImgA) : String :=
   showNats a.md.cs.shape ++ " | " ++ showRats a.md.cs.dims ++ " | " ++ showRats a.md.cs.origin ++ " | " ++
   showNats a.arr.shape ++ " | " ++ showNats ((boxC a.arr.shape).map fun idx =>
     let tg := a.arr.get idx
-    ((tg.rid * 8 + tg.t) * 4096 + flatC rootShape tg.vox) * 2 + tg.comp)
+    ((tg.rid * 8 + tg.t) * 4096 + flatC rootShape tg.vox) * (if C.isEmpty then 2 else prodL C) + flatC C tg.comp)
 
 def handle : P String := do
   let op ← P.tok
@@ -84,8 +84,17 @@ def handle : P String := do
     pure (" ; ".intercalate ((pairs n0 n1).map fun (i, j) =>
       showRats (cornerCart cs n0 n1 i j ++ cornerCart cs n0 n1 (i + 1) j ++ cornerCart cs n0 n1 (i + 1) (j + 1) ++ cornerCart cs n0 n1 i (j + 1))))
   | "apatch" => do
-    let C ← P.nat; let r ← pRootA C; let a0 ← pAxis; let a1 ← pAxis; let i ← P.nat; let j ← P.nat; P.done
-    pure (showExcept (fun x => x) (do let base ← r; let p ← patchOf base a0 a1 i j; pure (showPatch base.md.cs.shape p)))
+    let C ← P.list P.nat; let r ← pRootA C; let a0 ← pAxis; let a1 ← pAxis; let i ← P.nat; let j ← P.nat; P.done
+    pure (showExcept (fun x => x) (do let base ← r; let p ← patchOf base a0 a1 i j; pure (showPatch C base.md.cs.shape p)))
+  | "position" => do
+    let n0 ← P.nat; let n1 ← P.nat; let i ← P.nat; let j ← P.nat; P.done
+    let r := position n0 n1 i j
+    let h := match r.1 with | .left => "left" | .right => "right" | .internal => "internal"
+    let v := match r.2 with | .bottom => "bottom" | .top => "top" | .internal => "internal"
+    pure (h ++ " " ++ v)
+  | "order" => do
+    let n0 ← P.nat; let n1 ← P.nat; P.done
+    pure (" ; ".intercalate ((patchOrder n0 n1).map fun q => s!"{q.1} {q.2}"))
   | "blend" => do
     let a0 ← pAxis; let a1 ← pAxis; P.done
     pure (showExcept (fun _ => "grid") (blendAndAssemble a0 a1))
